@@ -148,17 +148,26 @@ def gen_model_raw(rng, *, max_periods=3, allow_stochastic=True, allow_filter=Tru
     'two_cont_choices','mixed_discrete_choices','period_filter'}"""
     force = force or set()
     T = rng.randint(1, max_periods)
-    if {"period_filter", "stochastic"} & force:
+    if {"stochastic", "two_stochastic"} & force:
         T = max(T, 2)
+    if "period_filter" in force:
+        T = max(T, min(max_periods, rng.choice([3, 3, 4])))      # interior periods exist
     ns, nc = rng.randint(1, 3), rng.randint(1, 3)
     snames = rng.sample(STATE_NAMES, ns)
     cnames = rng.sample(CHOICE_NAMES, nc)
     used = set()
     states, choices = [], []
+    if "two_stochastic" in force and ns < 2:
+        ns = 2
+        snames = rng.sample(STATE_NAMES, ns)
+    eq_size = rng.choice([2, 3])
     for i, n in enumerate(snames):
         cont = rng.random() < 0.45
         if "filter" in force and i == 0:
             cont = False
+        if "two_stochastic" in force and i < 2:
+            states.append([n, {"d": eq_size}])      # two stochastic states of EQUAL size
+            continue
         states.append([n, gen_grid(rng, cont, used)])
     for i, n in enumerate(cnames):
         cont = rng.random() < 0.5
@@ -192,14 +201,14 @@ def gen_model_raw(rng, *, max_periods=3, allow_stochastic=True, allow_filter=Tru
     want_filter = ("filter" in force or "period_filter" in force or
                    (allow_filter and dstates and rng.random() < 0.45))
     if want_filter and dstates:
-        nf = 1 if rng.random() < 0.8 else 2
+        nf = 1 if rng.random() < (0.5 if "period_filter" in force else 0.8) else 2
         for k in range(nf):
             fs = rng.sample(dstates, rng.randint(1, min(2, len(dstates))))
             fc = rng.sample(dchoices, rng.randint(0, min(1 if "mixed_discrete_choices" in force else 2, len(dchoices)))) if dchoices else []
             if "mixed_discrete_choices" in force and dchoices:
                 fc = dchoices[:1]
             names = fs + fc
-            use_period = "period_filter" in force or rng.random() < 0.3
+            use_period = ("period_filter" in force and k == 0) or ("period_filter" not in force and rng.random() < 0.3)
             for _ in range(30):
                 body = X.gen_bool(rng, names + (["_period"] if use_period else []), 2)
                 used_names = X.names_in(body)
@@ -255,6 +264,8 @@ def gen_model_raw(rng, *, max_periods=3, allow_stochastic=True, allow_filter=Tru
             body = ["<=", X.v(pool[0]), ["+", X.v(pool[1]), X.c(Fraction(rng.randint(-2, 6), 2))]]
         else:
             body = X.gen_bool(rng, pool + pars, 1)
+            if not (X.names_in(body) & set(allvars)):        # a constraint must involve a model variable
+                body = ["<=", X.v(pool[0]), ["+", X.v(pool[0]), X.c(Fraction(rng.randint(0, 3), 2))]]
         add(["budget_constraint", "upper_constraint"][k], sorted(X.names_in(body)), body,
             pars=[p for p in pars if p in X.names_in(body)])
 
@@ -262,7 +273,8 @@ def gen_model_raw(rng, *, max_periods=3, allow_stochastic=True, allow_filter=Tru
     stoch = []
     for n, g in states:
         if (not is_cont(g)) and allow_stochastic and dstates and (
-                ("stochastic" in force and not stoch) or rng.random() < 0.3):
+                ("stochastic" in force and not stoch) or ("two_stochastic" in force and len(stoch) < 2 and n in [x for x, _ in states[:2]])
+                or rng.random() < 0.3):
             deps_pool = [d for d in dstates + dchoices]
             deps = rng.sample(deps_pool, rng.randint(1, min(2, len(deps_pool))))
             if rng.random() < 0.4:
